@@ -367,3 +367,21 @@ Definition check_C12 (v out : val) : bool :=
            | None => false
            end
       else match ds with None => true | Some _ => false end).
+
+(** Correspondence relation: model output [m] vs implementation output [i]:
+    the script exactly (tie-breaking included), the unnormalised numbers
+    exactly, the normalised ones within relative 2^-40 (f64 rounding is outside
+    the model), the [distances] error exactly. *)
+Definition q_close_v (exact : bool) (iv mv : val) : bool :=
+  q_close exact (v_zq iv) (v_z (v_nth 0 mv)) (Z.to_pos (v_z (v_nth 1 mv))).
+Definition agree_C12 (inp m i : val) : bool :=
+  let ex := negb (in_norm inp) in
+  shape_ok i
+  && q_close_v ex (v_nth 0 i) (v_nth 0 m)
+  && q_close_v ex (v_nth 1 i) (v_nth 1 m)
+  && val_eqb (v_nth 2 m) (v_nth 2 i)
+  && match v_nth 3 m, v_nth 3 i with
+     | L [L ms], L [L is] => all2 (q_close_v ex) is ms
+     | L [], L [] => true
+     | _, _ => false
+     end.
